@@ -332,8 +332,8 @@ def run_task(task):
         if c["old"] != c["new"]:
             if isinstance(c["old"], list):
                 if lcs(c["old"], c["new"]):
-                    keep.append(repr((c["sh"], c["old"], c["new"], c.get("rev"))))
+                    keep.append(repr((c["sh"], c["old"], c["new"], c.get("rev"), c.get("par"))))
             elif any(c["new"].get(k, 9) == v for k, v in c["old"].items()):
-                keep.append(repr((c["sh"], c["old"], c["new"], c.get("rev"))))
+                keep.append(repr((c["sh"], c["old"], c["new"], c.get("rev"), c.get("par"))))
     r["nontrivial"] = [k for k in r["nontrivial"] if k in set(keep)]
     return r
